@@ -105,6 +105,7 @@ type Path struct {
 	FuncsSeen    map[string]bool
 	Depth        int
 
+	unknownsHere  int
 	Tables        map[string][]string
 	MapRanges     map[string]bool
 	local         *localCtx
@@ -247,6 +248,12 @@ func (p *Path) checkSliced(wantModel bool, query ...*smt.Term) (smt.Result, smt.
 	terms, reps := p.relevant(query...)
 	r, m := p.S.Check(p.B, terms, wantModel, p.B.Vars)
 	if r == smt.Unknown {
+		p.unknownsHere++
+		if p.unknownsHere > 6 {
+			// the solver cannot cope with this path's constraints: give the
+			// path up (reported as incomplete) instead of burning the budget
+			panic(pathAbort{abortUnknown, "more than 6 inconclusive solver answers on one path"})
+		}
 		var sb strings.Builder
 		for _, t := range terms {
 			ts := t.String()
@@ -531,6 +538,12 @@ func (p *Path) AssertT(c *smt.Term, label string) {
 	p.ensureModel()
 	if v, ok := p.eval(c); ok && v == 0 {
 		p.fail(label, "model of the path condition falsifies the assertion")
+	}
+	// cheap counterexample search first: a model near the current one that
+	// satisfies the path condition and falsifies the assertion
+	if wm := p.tryWitness(p.B.Not(c)); wm != nil {
+		p.setModel(wm)
+		p.fail(label, "counterexample found by evaluation near the current model")
 	}
 	p.NSolver++
 	p.NAssertQuery++
